@@ -99,6 +99,7 @@ func biLen(in *Interp, g *G, fv *FuncV, a []Value) Value {
 		if x.M == nil {
 			return tc.BV(0, 64)
 		}
+		in.noteMapAccess(x.M, false)
 		return tc.BV(uint64(x.M.N), 64)
 	case *Term:
 		if x.op == OpConstStr {
@@ -178,7 +179,9 @@ func biCopy(in *Interp, g *G, fv *FuncV, a []Value) Value {
 		for i := 0; i < n; i++ {
 			na.Elems[dst.Off+i] = src[i]
 		}
-		in.noteAccess(dst.Arr, true)
+		for i := 0; i < n; i++ {
+			in.noteAccessP(dst.Arr, []int{dst.Off + i}, true)
+		}
 		dst.Arr.V = na
 	}
 	return in.tc.BV(uint64(n), 64)
@@ -727,6 +730,7 @@ func (in *Interp) cancelCtx(c *CtxObj, err *IfaceV) {
 	c.Err = err
 	if c.Done != nil && !c.Done.Closed {
 		c.Done.Closed = true
+		c.Done.closeVC = append([]int(nil), in.cancelVC...)
 	}
 	for _, ch := range c.Children {
 		in.cancelCtx(ch, err)
@@ -773,6 +777,9 @@ func (in *Interp) ctxMethod(c *CtxObj, name string, args []Value) Value {
 func (in *Interp) newTimer(d *Term, fn *FuncV) (*TimerObj, *Cell) {
 	in.st.nextID++
 	t := &TimerObj{id: in.st.nextID, Armed: true, Fn: fn}
+	if in.cur != nil {
+		t.armVC = append([]int(nil), in.cur.vc...)
+	}
 	if fn == nil {
 		t.C = in.newChan(1, in.timeType, "timer.C")
 	}
@@ -819,6 +826,9 @@ func sTimerReset(in *Interp, g *G, fv *FuncV, a []Value) Value {
 	t := timerOf(a[0])
 	was := t.Armed
 	t.Armed = true
+	if in.cur != nil {
+		t.armVC = append([]int(nil), in.cur.vc...)
+	}
 	return in.tc.Bool(was)
 }
 
@@ -830,10 +840,12 @@ func (in *Interp) fireTimer(t *TimerObj) {
 		ng := in.newG(nil, t.Fn, nil, "time.AfterFunc")
 		ng.name = fmt.Sprintf("timer%d.%d", t.id, t.Fires)
 		ng.lib = true
+		ng.vc = joinVC(ng.vc, t.armVC)
 		return
 	}
 	if len(t.C.Buf) < t.C.Cap { // non-blocking send (legacy timer-channel semantics)
 		t.C.Buf = append(t.C.Buf, in.zero(in.timeType))
+		t.C.BufVC = append(t.C.BufVC, append([]int(nil), t.armVC...))
 	}
 }
 
